@@ -262,7 +262,7 @@ def main():
             uniq.append(m)
     muts = uniq
     if a.redo:
-        want = {(r["file"], r["line"], r["col"], r["new"]) for r in map(json.loads, open(a.redo)) if r.get("status") == "SURVIVES"}
+        want = {(r["file"], r["line"], r["col"], r["new"]) for r in map(json.loads, open(a.redo)) if r.get("status") in ("SURVIVES", "silent")}
         muts = [m for m in muts if (m["file"], m["line"], m["col"], m["new"]) in want]
     if a.stride > 1:
         muts = muts[:: a.stride]
